@@ -495,7 +495,7 @@ def rule_placeholders(ctx):
                 ctx.ok(site(fn, ibi), "`unmatched` incremented together with a placeholder")
             else:
                 ctx.violation("%s|unmatched-without-placeholder|1" % fn.path, site(fn, ibi), "`unmatched` incremented on a path that leaves no placeholder: a real match is cut off by the truncate")
-    ctx.floor("placeholder creation sites", n_sites, 3)
+    ctx.floor("placeholder creation sites", n_sites, 1)
 
 
 def rule_update_guard(ctx):
@@ -527,6 +527,14 @@ def rule_score_source(ctx):
             for x in walk(sc0):
                 if x[0] == "call" and x[1] == "pattern::MultiPattern::score":
                     call = x
+            if call is None:
+                # the Option returned by the scorer was bound to a local first (`let s = pattern.score(..); match s {..}`)
+                for x in walk(sc0):
+                    if x[0] == "local":
+                        for _, _, d in fn.def_exprs(x[1], at=bi if isinstance(bi, int) else None):
+                            for y in walk(d):
+                                if y[0] == "call" and y[1] == "pattern::MultiPattern::score":
+                                    call = y
             if call is None:
                 ctx.violation("%s|Match.score|source" % fn.path, site(fn, bi, si), "score stored in a Match is %s, not the pattern's score of the item" % show(sc))
                 continue
